@@ -239,3 +239,35 @@ func localLoadNonNil(u *ssa.UnOp, at, start *ssa.BasicBlock) bool {
 	}
 	return false
 }
+
+// retVal returns result #i of a return, looking through the spill that go/ssa
+// introduces in functions with defers (the result is stored to a local slot,
+// deferred calls run, then the slot is reloaded): the value stored to the
+// slot last in the same block before the return.
+func retVal(r *ssa.Return, i int) ssa.Value {
+	if i >= len(r.Results) {
+		return nil
+	}
+	v := r.Results[i]
+	u, ok := v.(*ssa.UnOp)
+	if !ok || u.Op != token.MUL {
+		return v
+	}
+	al, ok := u.X.(*ssa.Alloc)
+	if !ok {
+		return v
+	}
+	var last ssa.Value
+	for _, in := range r.Block().Instrs {
+		if in == ssa.Instruction(u) {
+			break
+		}
+		if st, ok := in.(*ssa.Store); ok && st.Addr == ssa.Value(al) {
+			last = st.Val
+		}
+	}
+	if last != nil {
+		return last
+	}
+	return v
+}
